@@ -317,7 +317,12 @@ class AstToDjangoQVisitor(visitor.NodeVisitor):
         path_to_outerref, related_model = reverse_relationship(
             owner_path, self.root_model
         )
-        subquery = related_model.objects.filter(Q(**{path_to_outerref: OuterRef("pk")}))
+        # Correlate on the primary key of the row the back path ends in: a bare
+        # `<relation>=OuterRef("pk")` compares the foreign key COLUMN, which holds another
+        # value when the key references a `to_field` (natural key) of the outer model.
+        subquery = related_model.objects.filter(
+            Q(**{path_to_outerref + "__pk": OuterRef("pk")})
+        )
         # .values(related_field.remote_field.name)
 
         if node.lambda_:
